@@ -133,6 +133,7 @@ func checkC10(c *Ctx) {
 	c.rule("C10.R3", "completion is consumed exactly once: in Next the receive arm clears the pending channel before any return and the default arm returns the waiting error with no effect; in the command executor the dispatched channel is received from or stored as pending, never both, never neither", 2)
 	c.rule("C10.R4", "exactly once: one dispatch per command statement; per bridge call the handler is invoked at most once and, if not at all, an error is reported; each arm of the handler goroutine reports completion exactly once and the arms cover every signature the gate accepts", 2)
 	c.rule("C10.R5", "goroutine literals capture only channels and variables never assigned after the go statement, and write nothing but channel sends", 2)
+	c.rule("C10.R7", "the argument list handed to a command handler does not originate (through slices, appends, local cells, results of module functions) in a field of the runner: a handler may read its arguments from its own goroutine after the call returned, while the runner evaluates the next command", 1)
 	c.rule("C10.R6", "built-in wait: the sleep duration is the number argument × one second with no float→integer conversion before scaling; completion is sent only after the sleep", 2)
 	if !m.ok(c, "C10") {
 		return
@@ -143,6 +144,9 @@ func checkC10(c *Ctx) {
 		c.undecided("C10.R1", "no SSA for Next")
 		return
 	}
+
+	// ----- R7: the argument list of a command is not backed by memory the runner keeps
+	c10FreshArguments(c, m)
 
 	// ----- R1
 	reach := w.syncReach(next)
@@ -1462,4 +1466,61 @@ func isParamOf(f *Func, v *types.Var) bool {
 		}
 	}
 	return false
+}
+
+// c10FreshArguments (C10.R7): in the function that executes a command statement, every []*variable.Value handed to a call
+// (the dispatch to the command table, or a handler invoked directly) has no origin in a field of the DialogueRunner.
+func c10FreshArguments(c *Ctx, m *runnerModel) {
+	w := c.W
+	if m.cmd == nil {
+		c.undecided("C10.R7", "the function executing command statements was not found")
+		return
+	}
+	f := w.SSAFunc(m.cmd)
+	if f == nil {
+		c.undecided("C10.R7", "no SSA for "+m.cmd.Name)
+		return
+	}
+	n := 0
+	for _, b := range f.Blocks {
+		for _, in := range b.Instrs {
+			call, ok := in.(ssa.CallInstruction)
+			if !ok {
+				continue
+			}
+			cc := call.Common()
+			if _, isBuiltin := cc.Value.(*ssa.Builtin); isBuiltin {
+				continue
+			}
+			if callee := cc.StaticCallee(); callee != nil && !strings.HasPrefix(ssaFuncPkgPath(callee), modPath) {
+				continue
+			}
+			for _, a := range cc.Args {
+				if typeStr(a.Type()) != "[]*variable.Value" {
+					continue
+				}
+				n++
+				os := originSet{}
+				w.sliceOrigins(a, map[*ssa.Parameter]originSet{}, os, map[ssa.Value]bool{}, 0)
+				var bad, keys []string
+				for k := range os {
+					keys = append(keys, k)
+					if strings.HasPrefix(k, "field ysgo.DialogueRunner.") || strings.HasPrefix(k, "package-level ") {
+						bad = append(bad, k)
+					}
+				}
+				sort.Strings(keys)
+				sort.Strings(bad)
+				key := m.cmd.Name + "/arguments#" + itoa(n)
+				if len(bad) > 0 {
+					c.ob("C10.R7", key, w.Pos(in.Pos()), false, "the argument list handed to the command can share its backing array with "+strings.Join(bad, ", ")+": a handler still reading its arguments (from its goroutine, or after a restore abandoned it) sees the arguments of the next command, and the two race")
+				} else {
+					c.ob("C10.R7", key, w.Pos(in.Pos()), true, "origins of the argument list: "+strings.Join(keys, ", "))
+				}
+			}
+		}
+	}
+	if n == 0 {
+		c.undecided("C10.R7", "no call receiving a []*variable.Value found in "+m.cmd.Name)
+	}
 }
